@@ -522,6 +522,7 @@ def check_prog_batch(engines, batch, tag, env=None):
 
 
 ENOUGH = []
+ENABLED = set()
 KNOWN_ABORT = re.compile(r"Fatal failure in matching insn")
 
 
@@ -648,7 +649,7 @@ def stage_programs():
     for k in range(nprog):
         pos = [G[(g0 + k * 4 + j) * 263 % len(G)] for j in range(4)]
         tup = [RG[(r0 + k * 2 + j) * 331 % len(RG)] for j in range(2)]
-        P = c03_gen.gen_c03_program(rng, f"c{k}", opts=dict(jmpi=(k % 2 == 1)), many_doubles=(k % 3 == 0), block_positions=pos,
+        P = c03_gen.gen_c03_program(rng, f"c{k}", opts=dict(jmpi=(k % 2 == 1), lref_diff_jump=("lref_diff_jump" in ENABLED)), many_doubles=(k % 3 == 0), block_positions=pos,
                                     result_tuples=tup)
         calls = c03_gen.calls_for(P, mirgen.ARGSETS if (not quick or k % 2 == 0) else mirgen.ARGSETS[:3], rng)
         plans = [c03_gen.plan_from(calls), c03_gen.plan_from(c03_gen.permute(rng, calls))]
@@ -738,6 +739,7 @@ def stage_programs():
                      "engine_sets": [ENG5] + LEVELS + MIXES + [["interp", "interpc", "gen2", "lazy2", "bb2", "(allocator clobbers only xmm8-15 / all but xmm8-15)"]],
                      "block_param_grid": {"positions": len(G), "functions_generated": 4 * nprog,
                                           "grid_covered_times": round(4 * nprog / len(G), 2)},
+                     "lref_difference_form_jumps_generated": "lref_diff_jump" in ENABLED,
                      "multi_result_grid": {"tuples": len(RG), "functions_generated": 2 * nprog,
                                            "grid_covered_times": round(2 * nprog / len(RG), 2)}}
     ck.sample({"program_plan_head": progs[0][1][1].split("\n")[:8]})
@@ -845,6 +847,8 @@ def stage_corpus():
         bad, obs = replay_case(rep)
         n += 1
         sig = rep.get("signature")
+        if rep.get("enables") and not bad:
+            ENABLED.add(rep["enables"])   # a generator feature that waits for this finding to be fixed
         if bad:
             ck.violation(dict(rep, observed_now=obs, corpus_file=os.path.relpath(jf, VERIF), how_to_rerun=f"./check C03 --replay {os.path.relpath(jf, VERIF)}"),
                          what=(rep.get("what") or f"corpus case {os.path.basename(jf)} fails") + f" [{str(obs[0])[:160] if obs else ''}]", signature=sig)
@@ -913,7 +917,9 @@ def main():
         "machine code of wrappers, shims, bb thunks/stubs and generated functions is executed, not modelled",
         "_MIR_publish_code/_MIR_change_code write the bytes they are given (C17); allocator answers are inputs of the model's events",
         "reference for program behaviour is MIR_interp (engine `interp`); failures that reproduce with eager generation alone are attributed to C01",
-        "half of the programs use laddr/jmpi in their entry functions, all use a jmpi through lref data; property insns are excluded by the property",
+        "half of the programs use laddr/jmpi in their entry functions, all use a jmpi through lref data with non-zero displacements; "
+        "computed gotos through the DIFFERENCE form (base + (label - base + disp)) are generated only once corpus/C03/kf-interp-lref-diff "
+        "passes (known finding C03:interp-lref-difference-unscaled); property insns are excluded by the property",
         "engines are built as shipped (-DNDEBUG); the allocator of every context clobbers all caller-saved registers incl. xmm8-15 "
         "(finding C03:bb-wrapper-xmm8-15 is fixed; corpus/C03/kf-bb-xmm8 is its must-pass regression)",
         "the C-level caller of block-parameter functions (`callb`) places arguments per the psABI itself (harness, c03_call_abi)",
